@@ -5,7 +5,7 @@ NOT_APPLICABLE = {
            "threads or multiprocessing symbolically, and a sequential stub would decide one schedule only (DESIGN §4 C13)",
 }
 ENGINES = [
-    {"name": "pysym", "path": "vf/pysym", "serves_properties": ["C17", "C07", "C06"],
+    {"name": "pysym", "path": "vf/pysym", "serves_properties": ["C17", "C07", "C06", "C09", "C10"],
      "kind_free_text": "bounded path-forking symbolic interpreter over the AST of the real py7zr sources (re-parsed "
                        "from /repo on every run), z3 bit-vectors / integers / ropes; solver verdict per path"},
 ]
@@ -19,6 +19,23 @@ RD_NOTE = ("codec libraries replaced by a decoder contract stub (next r bytes of
            "oracle; archive shapes (entry kinds, folder partition, layout options) are an enumerated bound, all sizes, CRCs, "
            "timestamps, pack sizes symbolic")
 CHECKS = {
+    "C09": dict(engine=B, ref="DESIGN.md §4 C09",
+                technique="bounded symbolic execution of the real extract()/_extract/Worker.extract/_extract_single/_check from the "
+                          "AST; the target set is symbolic (one boolean per member); z3 decides path∧¬post",
+                text="For solid and multi-folder archives with directories and empty files (enumerated shapes) and every subset T of "
+                     "the member names (list or set, with/without trailing slash and an absent name, recursive on/off) the factory "
+                     "receives exactly the selected existing members, each with exactly its byte range of its folder's decoded "
+                     "stream, folders without a selected member are not decoded, and nothing is written to the archive.",
+                note=RD_NOTE + "; extraction to a directory and the parallel branch are outside"),
+    "C10": dict(engine=B, ref="DESIGN.md §4 C10",
+                technique="bounded symbolic execution of the real listing interfaces (getnames/namelist/list/getinfo/archiveinfo/"
+                          "needs_password, get_methods_names, SupportedMethods) from the AST on reference-written headers",
+                text="On every enumerated layout with symbolic sizes/CRCs: the four name listings agree with the stored order, "
+                     "FileInfo sizes/CRCs/directory flags equal what the format assigns (and what extraction delivers, C06), "
+                     "getinfo finds every name with or without trailing slash and raises KeyError otherwise, archiveinfo totals, "
+                     "block count, solid flag and method names match the coders present, needs_password is true exactly when an "
+                     "AES coder is present or a password was supplied.",
+                note=RD_NOTE + "; os.stat and FILETIME->datetime are stubs"),
     "C06": dict(engine=B, ref="DESIGN.md §4 C06",
                 technique="bounded symbolic execution of the real reader (_real_get_contents, Header/*Info._read, Worker.extract, "
                           "_extract_single, decompress) from the AST on reference-written headers with symbolic values; z3 decides",
